@@ -260,7 +260,7 @@ def step (st : St) (line : String) : St × String :=
       | .ok start =>
         match chainOf ⟨st.data, st.secs, st.objs⟩ (st.secs.length + 2) (some start) with
         | some (ps, l) =>
-          (st, s!"{nodupNat ps} {decide (ps.length ≤ st.secs.length + 2)} {l.length == d.length && (l.map (·.2.prev)) == (d.map (·.2.prev))}")
+          (st, s!"{nodupNat ps} {decide (ps.length < st.secs.length + 2)} {l.length == d.length && (l.map (·.2.prev)) == (d.map (·.2.prev))}")
         | none => (st, "no-chain")
       | .error _ => (st, "no-startxref")
     | none => (st, "bad-op")
